@@ -2,4 +2,19 @@ SPEC_PART = dict(
     props_file="C11_theta",
     legs=[dict(family="theta", focus="codec", oracles=["roundtrip_ok"], profiles=["debug", "release"],
                mask=[1, 2, 4, 6, 7, 10, 11, 12, 13, 14, 15], n_quick=160, n_thorough=1500, panic_is_violation=True)],
-    trusted=[], assumptions=[], covers="theta: TBD")
+    trusted=["theta codec models (Model/ThetaCodec.v) are written by hand from theta/sketch.rs and the BitPacker/BitUnpacker of "
+             "theta/bit_pack.rs and tied byte for byte (serialize, serialize_compressed) and value for value (deserialize) on "
+             "every case; the 126 unrolled pack_bits_N/unpack_bits_N are NOT hand-written: tools/translate.py re-reads them "
+             "into Gen/GenBitPack.v on every run and a symbolic evaluator, proved sound once, checks each against the bit-stream "
+             "specification for all inputs"],
+    assumptions=["compact sketches with fewer than 2^32 entries (the count field is a u32)",
+                 "theta0 in [1, 2^63-1] for the reachability theorem, i.e. sampling probability in [2^-63, 1] (below 2^-63 the "
+                 "crate's starting theta is 0: see the theta report)"],
+    covers="theta: deserialize(serialize(c)) = Ok c and deserialize(serialize_compressed(c)) = Ok c (equality of the whole compact "
+           "sketch: entries in order, theta, seed hash, ordered, empty) for every well-formed c, every entry count incl. every "
+           "length mod 8 and every delta width 1..63; compact(ordered) of every reachable ThetaSketch is well-formed; bit-pack "
+           "reflection (sym_sound; pack/unpack blocks and BitPacker/BitUnpacker tails = big-endian bit stream for all widths and "
+           "all inputs; stream fields = values mod 2^w). Tie: crate bytes = model bytes for both writers, crate deserialize dump = "
+           "model, and a fork oracle on the crate alone (compact -> image -> value: equal dump, equal re-serialization), on sketches "
+           "with crafted entry sets (widths 1..63, 0..4100 entries, 255/256/257 and 65536 entries), streams, screened-only and "
+           "empty sketches, debug and release")
